@@ -59,7 +59,14 @@ func commentText(s *ast.ImportSpec) (t string, panicked bool) {
 	if s.Comment == nil {
 		return "", false
 	}
-	return s.Comment.Text(), false
+	// importComment (unexported) drops comments shorter than two bytes before calling Text(); mirrored here
+	list := make([]*ast.Comment, 0, len(s.Comment.List))
+	for _, cm := range s.Comment.List {
+		if len(cm.Text) >= 2 {
+			list = append(list, cm)
+		}
+	}
+	return (&ast.CommentGroup{List: list}).Text(), false
 }
 
 func lineAt(fset *token.FileSet, pos token.Pos) int { return fset.PositionFor(pos, false).Line }
